@@ -79,7 +79,7 @@ def run(which, base=SEEDED, expect_clean=False):
     """apply each change to a scratch worktree of /repo (never to /repo itself: other work may be reading it), run the
     quick check(s) with XRS_REPO pointing at it, undo.  `expect_clean`: the changes are behaviour-preserving
     rewrites, a VIOLATION is a false alarm."""
-    wt = "/tmp/seedrun-wt"
+    wt = f"/tmp/seedrun-wt-{os.getpid()}"
     sh(["git", "-C", REPO, "worktree", "remove", "--force", wt])
     rc, out = sh(["git", "-C", REPO, "worktree", "add", wt, "HEAD"])
     if rc != 0:
